@@ -26,7 +26,8 @@ EXPLANATION = (
     "sendClose is reachable only from loseConnection under 'both buffers empty' with `closing` recorded first, and every draining function "
     "re-checks `closing` on every path to its exit. Receiver (SSHConnection): data is refused iff length > localWindowLeft or > localMaxPacket "
     "(exact boundary), the window is decremented once by the received length before delivery, replenished by localWindowSize - "
-    "localWindowLeft, and adjustWindow adds locally exactly what it advertises; every send* packs the *remote* channel id and is "
+    "localWindowLeft, adjustWindow adds locally exactly what it advertises, and the guard set of the replenish path is exact (only `localClosed` "
+    "may suppress the WINDOW_ADJUST, only the low-water test may skip the top-up call); every send* packs the *remote* channel id and is "
     "suppressed after close. Not decided: liveness with windows too small to ever trigger replenishing, interleaving of the two streams."
 )
 ASSUMPTIONS = [
@@ -564,6 +565,17 @@ def check(ctx):
             w = edge_path(g, dn, [g.exit], avoid_nodes=lowt)
             ctx.check(bool(lowt) and w is None, "receive/replenish", q + " | checked after every message",
                       "after charging the window the handler can return without checking whether it must be replenished", witness=g.describe(w))
+            # exact guard set: after the window was charged only the threshold test may decide against the top-up
+            for t in g.ids(lambda n: n.kind == "test"):
+                if t in lowt or not adj or not any(edge_path(g, [d_], [t], strict=True) for d_ in dn):
+                    continue
+                for lab in ("T", "F"):
+                    if edge_path(g, succ_on(g, t, lab), [g.exit], avoid_nodes=adj) is not None and edge_path(g, [t], adj) is not None:
+                        ctx.check(False, "receive/replenish-only-threshold-suppresses", ctx.construct(q, g.node(t).ast),
+                                  f"whether the window is topped up also depends on `{src(g.node(t).ast)}`: while that condition holds a peer respecting the "
+                                  "advertised window runs it down to zero and is then stalled / refused (only the low-water test may skip the top-up)")
+                        break
+            ctx.ok("receive/replenish-only-threshold-suppresses", q)
             # payload offset: the length prefix of the NS is the last header field
             gn = [st for st in statements(f) if isinstance(st, ast.Assign) and "getNS" in src(st.value)]
             ctx.need(gn, f"{hname}: data = common.getNS(packet[off:])[0]")
@@ -588,6 +600,21 @@ def check(ctx):
         chp, np_ = f.args.args[1].arg, f.args.args[2].arg
         sp = call_nodes(g, lambda c: call_name(c) == "self.transport.sendPacket")
         ctx.need(sp, "adjustWindow: sendPacket")
+        # exact guard set: the only condition that may suppress the WINDOW_ADJUST is "we already sent CLOSE" (localClosed)
+        from sa.props._lib_h import truthiness
+        n_guard = 0
+        for t in g.ids(lambda n: n.kind == "test"):
+            others = [x for x in g.ids(lambda n: n.kind == "test") if x != t]      # blame the test that decides, not the ones before it
+            suppress = [lab for lab in ("T", "F") if edge_path(g, succ_on(g, t, lab), [g.exit], avoid_nodes=sp + others) is not None]
+            if not suppress or edge_path(g, [t], sp) is None:
+                continue
+            n_guard += 1
+            tr = truthiness(g.node(t).ast, lambda e: is_attr(e, chp, "localClosed"))
+            ok = tr is not None and suppress == ["T" if tr else "F"]
+            ctx.check(ok, "adjust/only-closed-suppresses", ctx.construct(q, g.node(t).ast),
+                      f"the window top-up is also suppressed by `{src(g.node(t).ast)}`: only a channel whose CLOSE was already sent (localClosed) may stop "
+                      "replenishing - e.g. while `closing` waits for buffered data the peer would run the window down to zero and the close never completes")
+        ctx.floor("adjust/only-closed-suppresses", n_guard, 1, "suppressing tests in adjustWindow")
         adds = []
         for n in stmts(g, lambda st: isinstance(st, (ast.AugAssign, ast.Assign))):
             st = g.node(n).ast
@@ -673,6 +700,12 @@ def check(ctx):
 
 
 MUTANTS = [
+    Mutant("adjust-suppressed-after-remote-close", CO, "        if channel.localClosed:\n            return  # we're already closed\n        packet = struct.pack(\">2L\", self.channelsToRemoteChannel[channel], bytesToAdd)",
+           "        if channel.localClosed or channel.remoteClosed:\n            return  # we're already closed\n        packet = struct.pack(\">2L\", self.channelsToRemoteChannel[channel], bytesToAdd)",
+           expect_rule="adjust/only-closed-suppresses"),
+    Mutant("no-top-up-while-close-pending", CO, "        if channel.localWindowLeft < channel.localWindowSize // 2:\n            self.adjustWindow(\n                channel, channel.localWindowSize - channel.localWindowLeft\n            )\n        channel.dataReceived(data)",
+           "        if not channel.closing and channel.localWindowLeft < channel.localWindowSize // 2:\n            self.adjustWindow(\n                channel, channel.localWindowSize - channel.localWindowLeft\n            )\n        channel.dataReceived(data)",
+           expect_rule="receive/replenish-only-threshold-suppresses"),
     Mutant("write-named-slice-end-too-long", CH, "        for offset in r:\n            write(self, data[offset : offset + rmp])\n", "        for offset in r:\n            end = offset + rmp + 1\n            write(self, data[offset:end])\n",
            expect_rule="packet-size/piece-width"),
     Mutant("receiver-named-limit-off-by-one", CO, "        if dataLength > channel.localWindowLeft or dataLength > channel.localMaxPacket:\n            self._log.error(\"too much extdata\")",
@@ -702,6 +735,8 @@ MUTANTS = [
            expect_rule="order/append-at-tail-while-buffered"),
 ]
 SILENT = [
+    Silent("adjust-guard-inverted", CO, "        if channel.localClosed:\n            return  # we're already closed\n        packet = struct.pack(\">2L\", self.channelsToRemoteChannel[channel], bytesToAdd)",
+           "        if not channel.localClosed:\n            pass\n        else:\n            return\n        packet = struct.pack(\">2L\", self.channelsToRemoteChannel[channel], bytesToAdd)"),
     Silent("write-named-slice-end", CH, "        for offset in r:\n            write(self, data[offset : offset + rmp])\n", "        for offset in r:\n            end = offset + rmp\n            write(self, data[offset:end])\n"),
     Silent("receiver-named-window", CO, "        if dataLength > channel.localWindowLeft or dataLength > channel.localMaxPacket:\n            self._log.error(\"too much extdata\")",
            "        window = channel.localWindowLeft\n        if dataLength > window or dataLength > channel.localMaxPacket:\n            self._log.error(\"too much extdata\")"),
